@@ -50,7 +50,7 @@ def dir_rule(rnd, pd, d, kinds=KINDS):
 def run(rep, tier, seed):
     rnd = rng_for(seed, 'C18')
     b = Batch(rep)
-    n = 200 if tier == 'quick' else 2500
+    n = 400 if tier == 'quick' else 4000
     for i in range(n):
         stack, pkt, st, pd = gen_parsed(rnd, STACKS[i % len(STACKS)])
         d = rnd.choice([DI.UP, DI.DOWN])
